@@ -8,6 +8,7 @@ pub fn dispatch(op: &str, _req: &Value) -> Value {
 		"sigshapes" => sigshapes(_req),
 		"csr_subsets" => csr_subsets(_req),
 		"c02_histories" => c02_histories(_req),
+		"c09_bfs" => c09_bfs(_req),
 		_ => json!({"ok": false, "machinery_error": format!("unknown op {op}")}),
 	}
 }
@@ -492,4 +493,123 @@ fn c02_histories(req: &Value) -> Value {
 	let _ = std::fs::remove_dir_all(&dir);
 	let _ = all;
 	json!({"ok": true, "file_type": ftype, "depth": depth, "histories": histories, "writes": writes, "states": states.len(), "bad": bad, "samples": samples})
+}
+
+/// E3 for C09: breadth-first search over the reachable states of the real RateLimit under the
+/// virtual clock.  A state is reached by a history of arrival gaps; it is re-executed from a fresh
+/// limiter (the clock only moves forward, behaviour depends on relative times only) and
+/// deduplicated by the sorted ages of the limiter's query log.
+fn c09_bfs(req: &Value) -> Value {
+	let limits: Vec<(usize, String)> = req
+		.get("limits")
+		.and_then(|v| v.as_array())
+		.map(|a| {
+			a.iter()
+				.map(|x| (x[0].as_u64().unwrap_or(1) as usize, x[1].as_str().unwrap_or("1s").to_string()))
+				.collect()
+		})
+		.unwrap_or_default();
+	let depth = req.get("depth").and_then(|v| v.as_u64()).unwrap_or(6) as usize;
+	let gaps: Vec<u64> = req
+		.get("gaps_ms")
+		.and_then(|v| v.as_array())
+		.map(|a| a.iter().filter_map(|x| x.as_u64()).collect())
+		.unwrap_or_else(|| vec![0, 100, 500, 1000, 1100, 3000]);
+	let max_states = req.get("max_states").and_then(|v| v.as_u64()).unwrap_or(200_000) as usize;
+	let lim_ms: Vec<(usize, u64)> = limits
+		.iter()
+		.map(|(n, p)| (*n, crate::duration::parse_duration(p).map(|d| d.as_millis() as u64).unwrap_or(0)))
+		.collect();
+	let pmax = lim_ms.iter().map(|x| x.1).max().unwrap_or(0);
+	let rt = tokio::runtime::Builder::new_current_thread().enable_all().start_paused(true).build().unwrap();
+	let mut seen: std::collections::HashSet<Vec<u64>> = Default::default();
+	let mut frontier: Vec<Vec<usize>> = vec![vec![]];
+	let mut transitions = 0u64;
+	let mut bad: Vec<Value> = vec![];
+	let mut depth_done = 0usize;
+	let mut fixpoint = false;
+	let mut capped = false;
+	let mut samples: Vec<Value> = vec![];
+	seen.insert(vec![]);
+	for d in 0..depth {
+		let mut next: Vec<Vec<usize>> = vec![];
+		for hist in frontier.iter() {
+			for (gi, _) in gaps.iter().enumerate() {
+				let mut h = hist.clone();
+				h.push(gi);
+				// re-execute the history on a fresh limiter
+				let (adm, arrivals, ages) = rt.block_on(async {
+					let mut rl = crate::endpoint::RateLimit::new(&limits).unwrap();
+					let t0 = tokio::time::Instant::now();
+					let mut adm: Vec<u64> = vec![];
+					let mut arrivals: Vec<u64> = vec![];
+					for g in h.iter() {
+						let gap = if gaps[*g] == u64::MAX { pmax + 100 } else { gaps[*g] };
+						tokio::time::advance(std::time::Duration::from_millis(gap)).await;
+						arrivals.push(tokio::time::Instant::now().duration_since(t0).as_millis() as u64);
+						rl.block_until_allowed().await;
+						adm.push(tokio::time::Instant::now().duration_since(t0).as_millis() as u64);
+					}
+					let now = tokio::time::Instant::now();
+					let mut ages: Vec<u64> = rl
+						.verif_query_log()
+						.iter()
+						.map(|t| now.duration_since(*t).as_millis() as u64)
+						.collect();
+					ages.sort();
+					(adm, arrivals, ages)
+				});
+				transitions += 1;
+				// window oracle on the whole admission sequence
+				for (n, p) in lim_ms.iter() {
+					for i in 0..adm.len().saturating_sub(*n) {
+						if adm[i + n] - adm[i] < *p {
+							if bad.len() < 20 {
+								bad.push(json!({"oracle": "window", "limit": [n, p], "history_gaps_ms": h.iter().map(|g| gaps[*g]).collect::<Vec<u64>>(), "admissions_ms": adm,
+									"detail": format!("admissions {}..{} are {} ms apart: {} requests within {} ms", i, i + n, adm[i + n] - adm[i], n + 1, p)}));
+							}
+							break;
+						}
+					}
+				}
+				// progress oracle against the reference sliding window
+				let i = adm.len() - 1;
+				let mut t_ref = arrivals[i];
+				for (n, p) in lim_ms.iter() {
+					if i >= *n {
+						t_ref = t_ref.max(adm[i - n] + p);
+					}
+				}
+				if adm[i] > t_ref + pmax.max(1000) {
+					if bad.len() < 20 {
+						bad.push(json!({"oracle": "progress", "history_gaps_ms": h.iter().map(|g| gaps[*g]).collect::<Vec<u64>>(), "admissions_ms": adm,
+							"detail": format!("request arrived at {} ms, limits permit it at {} ms, admitted at {} ms", arrivals[i], t_ref, adm[i])}));
+					}
+				}
+				if samples.len() < 2 && h.len() == depth.min(4) {
+					samples.push(json!({"gaps_ms": h.iter().map(|g| gaps[*g]).collect::<Vec<u64>>(), "admissions_ms": adm}));
+				}
+				if seen.insert(ages) {
+					next.push(h);
+				}
+				if seen.len() > max_states {
+					capped = true;
+					break;
+				}
+			}
+			if capped {
+				break;
+			}
+		}
+		depth_done = d + 1;
+		if next.is_empty() {
+			fixpoint = true;
+			break;
+		}
+		frontier = next;
+		if capped {
+			break;
+		}
+	}
+	json!({"ok": true, "limits": limits, "states": seen.len(), "transitions": transitions, "depth": depth_done, "fixpoint": fixpoint, "capped": capped, "bad": bad, "samples": samples})
 }
